@@ -492,3 +492,76 @@ def run_ctorcover(prog, ctx=None):
                                        "" if ok else "inside the loop that constructs elements at %s the used length is set to %s: elements constructed so far are no longer covered (or raw memory is)" % (
                                            norm(show(e["args"][0], f)), norm(show(n["b"], f))))
     return res
+
+
+def _loop_info(f, loops, call_block, call):
+    """(head, body, counter id, start text, bound variable ids) of the innermost loop around a traits call on base + counter"""
+    heads = [h for h, body in loops.items() if call_block.id in body]
+    if not heads or not call.get("args"):
+        return None
+    head = min(heads, key=lambda h: len(loops[h]))
+    body = loops[head]
+    a0 = strip(call["args"][0], all_casts=True)
+    counter = None
+    if a0.get("k") == "bin" and a0.get("op") == "+":
+        for side in (a0["a"], a0["b"]):
+            s = strip(side, all_casts=True)
+            if s.get("k") == "ref" and "id" in s["d"] and f.T(s.get("t")).get("k") in ("int", "enum"):
+                counter = s["d"]
+    if counter is None:
+        return None
+    # start: the value assigned to the counter in a block that enters the loop from outside; a parameter walks from itself
+    start = counter["n"]
+    for p in f.blocks[head].preds:
+        if p in body:
+            continue
+        for el in f.blocks[p].el:
+            for n in walk_own(el):
+                if n.get("k") == "bin" and n.get("op") == "=":
+                    l = strip(n["a"], lvalue_to_rvalue=False)
+                    if l.get("k") == "ref" and l["d"].get("id") == counter["id"]:
+                        start = norm(show(strip(n["b"], all_casts=True), f))
+    bounds = set()
+    for bid in body:
+        blk = f.blocks[bid]
+        if any(s is not None and s not in body for s in blk.succ) and blk.term and blk.term.get("cond") is not None:
+            for x in walk(blk.term["cond"]):
+                if x.get("k") == "ref" and "id" in x["d"] and x["d"]["id"] != counter["id"] and f.T(x.get("t")).get("k") in ("int", "enum"):
+                    bounds.add(x["d"]["n"])
+    return head, body, counter, start, bounds
+
+
+def run_finimatch(prog, ctx=None):
+    """FINIMATCH: elements finalised because they are about to be rebuilt are exactly the ones rebuilt: when a loop finalises
+    base + [S, B) and a later loop of the same function constructs base + [S, E) from the same start S, the finalising loop is
+    also bounded by E.  Otherwise elements behind E are finalised, stay inside the used length and are finalised again."""
+    res = Result("FINIMATCH")
+    files = set(ctx.get("files", [])) if ctx else None
+    for f in funcs_of(prog, files):
+        tc = trait_calls(f)
+        finis = [(b, e) for b, i, e, role in tc if role == "fini"]
+        inits = [(b, e) for b, i, e, role in tc if role == "init"]
+        if not finis or not inits:
+            continue
+        loops = natural_loops(f)
+        for fb, fe in finis:
+            fi = _loop_info(f, loops, fb, fe)
+            if fi is None:
+                continue
+            fhead, fbody, fcnt, fstart, fbounds = fi
+            for ib, ie in inits:
+                ii = _loop_info(f, loops, ib, ie)
+                if ii is None or ii[0] == fhead:
+                    continue
+                ihead, ibody, icnt, istart, ibounds = ii
+                if istart != fstart:
+                    continue
+                # the constructing loop must come after the finalising one
+                if ihead not in f.reachable_from(fhead) or fhead in f.reachable_from(ihead, avoid={fhead}) and False:
+                    continue
+                missing = sorted(ibounds - fbounds)
+                ok = not missing
+                res.ob("%s:fini from %s bounded like init" % (f.qn, fstart), ok, f, fe.get("l", f.line),
+                       "" if ok else "elements from %s on are finalised up to {%s} but rebuilt only up to {%s}: the finalising loop is not bounded by %s" % (
+                           fstart, ", ".join(sorted(fbounds)), ", ".join(sorted(ibounds)), ", ".join(missing)))
+    return res
